@@ -58,6 +58,12 @@ class Wrapc(util.WrapperMixin):
         self.shared_proto_c = []
         # Include files required by wrapper implementations.
         self.capsule_typedef_nodes = OrderedDict()  # [typemap.name] = typemap
+        # Start each library with empty destructor tables.
+        # (The class attributes would accumulate across libraries
+        # processed in the same process.)
+        self.capsule_code = {}
+        self.capsule_order = []
+        self.capsule_include = {}
 
     _default_buf_args = ["arg"]
 
